@@ -150,6 +150,10 @@ func (p *provProfile) Run(s *Sim) {
 		p.k.PNoRegister = []float64{0, 0.1}[ch.Pick("prov.pnoreg", 2)]
 		p.k.PLateDevices = []float64{0, 0.5}[ch.Pick("prov.plate", 2)]
 		p.k.PStuckStartup = []float64{0, 0.1}[ch.Pick("prov.pstuck", 2)]
+		if p.disrupt {
+			// nodes that go NotReady (Ready=False or Unknown) for a while count against the disruption budgets
+			p.k.PFlap = []float64{0, 0.15}[ch.Pick("dis.pflap", 2)]
+		}
 	}
 	s.Clock.LazyRule = func(t *Task, d time.Duration, nth int) bool { return t.Ctrl.Name == "provisioner" && d == time.Second && nth == 0 }
 	p.e.Rec.OnEvent = append(p.e.Rec.OnEvent, p.onEvent)
@@ -622,6 +626,10 @@ func (p *provProfile) op() {
 		})
 		p.driftEdit[name] = p.s.Now()
 		p.note("edit NodePool %s (drifting: template annotation, replaced wholesale=%v)", name, replace)
+		if ch.Pick("prov.editthendeploy", 2) == 1 {
+			// a rollout usually follows the edit: new pods arrive while the hash controller may not have caught up yet
+			p.deploy()
+		}
 	case 8: // user deletes a NodeClaim
 		l := st.List(gvkNodeClaim)
 		if len(l) > 0 {
